@@ -1,4 +1,5 @@
 import RSocketModel.Engine.Grammar
+import RSocketModel.Props.C11
 /-!
 # C07 — Every interaction terminates at most once at the API
 
@@ -34,70 +35,6 @@ theorem c07_grammar_from (st : State) (h : WF st) (evs : List Ev) (oid : Nat) (p
 
 /-! ### what acceptance by the monitor means, without the automaton -/
 
-theorem feed_terminal (p q : Phase) (x : Out) (ht : x.isTerminal = true) (h : p.feed x = some q) : q = .done ∧ p ≠ .done := by
-  cases x <;> simp [Out.isTerminal] at ht <;> cases p <;> simp [Phase.feed] at h <;> simp_all
-  all_goals (subst_vars; first | simp | (split <;> simp))
-
-theorem feed_not_active (p p' : Phase) (x : Out) (hp : p ≠ .active) (hx : ∀ o, x ≠ .onSubscribe o) (hf : p.feed x = some p') :
-    p' ≠ .active := by
-  cases x <;> cases p <;> simp_all [Phase.feed]
-  all_goals (subst_vars; first | simp | (split <;> simp))
-
-theorem feed_not_idle (p p' : Phase) (x : Out) (hp : p ≠ .idle) (hf : p.feed x = some p') : p' ≠ .idle := by
-  cases x <;> cases p <;> simp_all [Phase.feed]
-  all_goals (subst_vars; first | simp | (split <;> simp))
-
-theorem monitor_not_idle (oid : Nat) (l : List Out) : ∀ (p : Phase), p ≠ .idle → monitor oid p l ≠ some .idle := by
-  induction l with
-  | nil => intro p hp h; simp only [monitor, Option.some.injEq] at h; exact hp h
-  | cons y ys ih =>
-    intro p hp h
-    simp only [monitor] at h
-    split at h
-    · split at h
-      · rename_i p' hf
-        exact ih p' (feed_not_idle p p' y hp hf) h
-      · cases h
-    · exact ih p hp h
-
-theorem feed_done (q : Phase) (x : Out) (h : Phase.feed .done x = some q) :
-    q = .done ∧ x.isSignal = false ∧ (∀ o, x ≠ .onSubscribe o) := by
-  cases x <;> simp_all [Phase.feed, Out.isSignal]
-
-theorem monitor_done (oid : Nat) (l : List Out) (q : Phase) (h : monitor oid .done l = some q) :
-    ∀ y ∈ l, y.target = some oid → y.isSignal = false ∧ y ≠ .onSubscribe oid := by
-  induction l with
-  | nil => intro y hy; simp at hy
-  | cons x xs ih =>
-    intro y hy ht
-    simp only [monitor] at h
-    split at h
-    · split at h
-      · rename_i p' hf
-        obtain ⟨rfl, h1, h2⟩ := feed_done p' x hf
-        simp only [List.mem_cons] at hy
-        rcases hy with rfl | hy
-        · exact ⟨h1, h2 oid⟩
-        · exact ih h y hy ht
-      · cases h
-    · rename_i hx
-      simp only [List.mem_cons] at hy
-      rcases hy with rfl | hy
-      · exact absurd ht hx
-      · exact ih h y hy ht
-
-theorem monitor_split (oid : Nat) (a : List Out) (x : Out) (b : List Out) (p q : Phase)
-    (h : monitor oid p (a ++ x :: b) = some q) (ht : x.target = some oid) :
-    ∃ p1 p2, monitor oid p a = some p1 ∧ p1.feed x = some p2 ∧ monitor oid p2 b = some q := by
-  rw [monitor_append] at h
-  cases h1 : monitor oid p a with
-  | none => simp [h1] at h
-  | some p1 =>
-    simp only [h1, monitor, ht, if_true] at h
-    cases h2 : p1.feed x with
-    | none => simp [h2] at h
-    | some p2 => simp only [h2] at h; exact ⟨p1, p2, rfl, h2, h⟩
-
 /-- **nothing after the terminal signal**: once an object has received a completion, an error, an
 element flagged complete or a future resolution, no later output of the run is a signal (or a
 second `on_subscribe`) for that object -/
@@ -109,28 +46,6 @@ theorem c07_nothing_after_terminal (first : Nat) (lp : Bool) (evs : List Ev) (oi
   obtain ⟨p1, p2, _, h2, h3⟩ := monitor_split oid a x b .idle q hq ht
   obtain ⟨rfl, _⟩ := feed_terminal p1 p2 x hterm h2
   exact monitor_done oid b q h3
-
-/-- the monitor reaches `active` only through `on_subscribe` -/
-theorem monitor_active (oid : Nat) (l : List Out) : ∀ p, p ≠ .active → monitor oid p l = some .active →
-    .onSubscribe oid ∈ l := by
-  induction l with
-  | nil => intro p hp h; simp only [monitor, Option.some.injEq] at h; exact absurd h hp
-  | cons x xs ih =>
-    intro p hp h
-    simp only [monitor] at h
-    split at h
-    · rename_i ht
-      split at h
-      · rename_i p' hf
-        by_cases hx : x = .onSubscribe oid
-        · simp [hx]
-        · have hx' : ∀ o, x ≠ .onSubscribe o := by
-            intro o e; subst e
-            simp only [Out.target, Option.some.injEq] at ht
-            subst ht; exact hx rfl
-          exact List.mem_cons_of_mem _ (ih p' (feed_not_active p p' x hp hx' hf) h)
-      · cases h
-    · exact List.mem_cons_of_mem _ (ih p hp h)
 
 /-- **`on_subscribe` first**: every element, completion or error a subscriber receives is
 preceded by that subscriber's `on_subscribe` -/
